@@ -4,11 +4,13 @@
 (*  {"ev":"Msg","name":n,"form":f,"st":"ok"|"raise","dst":"ok"|"raise","lname":name in the *)
 (*   LLSD form,"top":[top-level keys],"ob":[[block,count]..] original,"lb":.. LLSD form,    *)
 (*   "bb":.. message that came back}   (block lists sorted by name)                        *)
+(*  {"ev":"Handled","name":n,"prof":p} an earlier message the same instance handled (histories) *)
 (*  {"ev":"Blk","blk":b,"idx":i,"vars":[[var, template type, original value, LLSD value     *)
 (*   found in the form, value that came back]..]}   one per block instance                 *)
 EXTENDS LLSDMessage, Json, IOUtils, TLCExt
 TraceLog == ndJsonDeserialize(IOEnv.TRACE_FILE)
 TDom(t) == {}
+NoTypes == {}
 VARIABLES l, tid
 Chk(name, cond) == IF cond THEN TRUE ELSE PrintT(ToJson([fail |-> name, line |-> l, tid |-> tid]))
 Env(name, cond) == Assert(cond, <<"driver violated an environment assumption", name, l>>)
@@ -16,10 +18,22 @@ IsEvent(e) == l <= Len(TraceLog) /\ TraceLog[l].ev = e /\ l' = l + 1
 Rec == TraceLog[l]
 \* the carrier machine's own variables are not used by trace validation: parked
 Parked == ty = "U8" /\ orig = MErr /\ phase = "msg" /\ carried = Err /\ xml = FALSE /\ result = MErr
-TInit == l = 1 /\ tid = -1 /\ Parked
-TReset == IsEvent("Reset") /\ tid' = Rec.tid /\ UNCHANGED vars
+          /\ prof = "full" /\ memo = "unset"
+\* hist IS used: one trace = one serializer instance; hist holds <<message name, profile>> of everything
+\* that instance has handled so far in this trace
+ivars == <<ty, orig, phase, carried, xml, result, prof, memo>>
+TInit == l = 1 /\ tid = -1 /\ Parked /\ hist = <<>>
+\* a Reset is a fresh instance
+TReset == IsEvent("Reset") /\ tid' = Rec.tid /\ hist' = <<>> /\ UNCHANGED ivars
+\* {"ev":"Handled","name":n,"prof":p}: the instance handled (serialize + deserialize) an earlier message
+THandled == IsEvent("Handled") /\ hist' = Append(hist, <<Rec.name, Rec.prof>>) /\ UNCHANGED <<tid, ivars>>
 
-TMsg == /\ IsEvent("Msg") /\ UNCHANGED <<tid, vars>>
+\* Msg additionally carries "prof", "hist" (what the driver believes the instance has seen) and "fp"/"fp0":
+\* fingerprints of (LLSD form, message that came back) from this instance and from a fresh instance
+TMsg == /\ IsEvent("Msg") /\ UNCHANGED <<tid, ivars>>
+        /\ Env("driver and specification agree on the instance's history", Rec.hist = hist)
+        /\ hist' = Append(hist, <<Rec.name, Rec.prof>>)
+        /\ Chk("msg.history-independent", Rec.fp = Rec.fp0)
         /\ Chk("msg.serialize-ok", Rec.st = "ok")
         /\ Chk("msg.deserialize-ok", Rec.st = "ok" => Rec.dst = "ok")
         /\ Chk("msg.form-shape", Rec.st = "ok" => (Rec.lname = Rec.name /\ Rec.top = <<"body", "message">> /\ Rec.lb = Rec.ob))
@@ -33,7 +47,7 @@ VarOK(x) == /\ Env("value fits its template type", x[2] \in Types /\ Fits(x[2], 
 TBlk == /\ IsEvent("Blk") /\ UNCHANGED <<tid, vars>>
         /\ \A i \in 1..Len(Rec.vars) : VarOK(Rec.vars[i])
 
-TNext == TReset \/ TMsg \/ TBlk
+TNext == TReset \/ THandled \/ TMsg \/ TBlk
 TraceSpec == TInit /\ [][TNext]_<<l, tid, vars>>
 TraceAccepted == PrintT("TRACE_REACHED " \o ToString(TLCGet("stats").diameter - 1) \o " OF " \o ToString(Len(TraceLog)))
 ====
